@@ -22,6 +22,7 @@ RELATED = {
     'uuidutils.py': ['C14'], 'qemu.py': ['C10'], 'units.py': ['C10', 'C05'],
 }
 ALL = '--all' in sys.argv
+OWN_FIRST = '--own-first' in sys.argv
 ROOT = os.environ.get('SWEEP_ROOT', '/tmp/sweep')
 SNAP = ROOT + '/verif'
 
@@ -56,7 +57,21 @@ def one(args):
             return tag, {'error': 'patch does not apply: ' + r.stderr[-200:]}
         res = {}
         env = dict(os.environ, SA_REPO=wt, SA_NOWRITE='1')
-        for p in related(patch):
+        props = related(patch)
+        own = None
+        if OWN_FIRST:
+            # the check of the property the change was written against runs
+            # first; the others only if it does not report the change
+            try:
+                own = json.load(open(os.path.join(
+                    os.path.dirname(patch), 'meta.json')))['property']
+            except (OSError, ValueError, KeyError):
+                own = None
+            if own in props:
+                props = [own] + [p for p in props if p != own]
+        for p in props:
+            if OWN_FIRST and own and p != own and res.get(own, (0,))[0] == 1:
+                break
             c = subprocess.run(['/venv/bin/python', '-m', 'sa', 'check', p],
                                cwd=SNAP, env=env, capture_output=True,
                                text=True)
